@@ -72,6 +72,36 @@ def _block_of_plus(p):
     return None
 
 
+def _per_char_newlines(action):
+    """True if the action has a loop over all characters of the match (index 0 .. yyleng) that calls a tracker method
+    whose name says newline exactly once, under the test `text[i] == '\\n'`; False if there is such a loop with another
+    shape; None if there is no loop over the match"""
+    for lp in walk(action or {}):
+        if lp.get("k") != "for" or not isinstance(lp.get("c"), dict):
+            continue
+        c = lp["c"]
+        while c.get("k") in ("cast", "paren"):
+            c = c["e"]
+        if not (c.get("k") == "bin" and c.get("op") == "<" and _is_yyleng(c["rhs"])):
+            continue
+        init = lp.get("init") or {}
+        zero = any(v.get("init") is not None and _unwrap(v["init"]).get("k") == "int" and _unwrap(v["init"]).get("v") == 0
+                   for v in init.get("vars", [])) if init.get("k") == "decl" else False
+        cs = [x for x in walk(lp.get("body") or {}) if x.get("k") == "call" and "newline" in (x.get("name") or "")]
+        guarded = False
+        for iff in walk(lp.get("body") or {}):
+            if iff.get("k") == "if" and any(x in cs for x in walk(iff.get("then") or {}) if isinstance(x, dict)):
+                t = iff["c"]
+                while t.get("k") in ("cast", "paren"):
+                    t = t["e"]
+                if t.get("k") == "bin" and t.get("op") == "==" and any(
+                        _unwrap(z).get("k") in ("char", "int") and _unwrap(z).get("v") == 10 for z in (t["lhs"], t["rhs"])) and \
+                        any("yytext" in short(z) or "utap_text" in short(z) for z in (t["lhs"], t["rhs"])):
+                    guarded = True
+        return bool(zero and len(cs) == 1 and guarded)
+    return None
+
+
 def run_newline(chk, L, rid="R-NEWLINE"):
     chk.rule(rid, "a scanner rule whose pattern can match a line feed calls tracker.newline with exactly the number of "
                   "line feeds in the match (constant patterns: that constant; X+ with a fixed-length block X holding "
@@ -91,6 +121,13 @@ def run_newline(chk, L, rid="R-NEWLINE"):
             continue
         n += 1
         lo, hi = pat_count(r.pat, "\n")
+        per_char = _per_char_newlines(r.action)
+        if per_char is not None and not nl:
+            chk.ob(rid, key, per_char,
+                   "lexer rule %s walks the matched text but does not report one line per line feed in it" % r
+                   if not per_char else
+                   "lexer rule %s reports one line for every line feed of the matched text (loop over yytext)" % r, where)
+            continue
         if len(nl) != 1:
             chk.ob(rid, key, False,
                    "lexer rule %s can match %s line feed(s) but %s" %
